@@ -2,7 +2,7 @@
     in every state reachable by a disciplined trace. *)
 From Coq Require Import List NArith Bool Lia.
 From C33 Require Import C36.Model C36.ProofsBase C36.ProofsOcc C36.ProofsEff C36.ProofsInv
-  C36.ProofsSteps C36.ProofsInv2 C36.ProofsInv3.
+  C36.ProofsSteps C36.ProofsInv2 C36.ProofsInvX C36.ProofsInv3.
 Import ListNotations.
 Open Scope N_scope.
 
@@ -146,6 +146,14 @@ Proof.
   - eapply inv_static_events; eauto. exact Logic.I.
   - eapply inv_drain; eauto.
   - eapply inv_drain_reply; eauto.
+  - eapply inv_static_events; eauto. exact Logic.I.
+  - discriminate D.      (* ENewRaw is not disciplined *)
+  - eapply inv_static_events; eauto. exact Logic.I.
+  - eapply inv_xtake; eauto.
+  - eapply inv_xput; eauto.
+  - eapply inv_static_events; eauto. exact Logic.I.
+  - eapply inv_static_events; eauto. exact Logic.I.
+  - eapply inv_static_events; eauto. exact Logic.I.
   - eapply inv_static_events; eauto. exact Logic.I.
 Qed.
 
